@@ -483,3 +483,16 @@ def _ble_clause(req, table, rejected_at, trace, result):
             ok = ok and (len(heard) == (1 if "pr" in perms else 0)) and all(c[1] == {key: {"value": req[j][2]}} for c in heard)
             ok = ok and (result is None or key not in result)
     return ok
+
+
+# ------------------------------------------------------------------------------------------------- bounded stand-in (IP)
+
+
+def _native(tier, seed):
+    from harness import outcomes
+
+    return outcomes.run(tier, seed, "C13/aiohomekit.controller.ip.pairing:IpPairing#native")
+
+
+IpGetCharacteristics.bounded_run = staticmethod(_native)
+IpGetCharacteristics.bound_note = "real IpPairing reads and writes with scripted replies against a reference model of the property (random request sets and reply shapes); IP transport only"
